@@ -97,6 +97,10 @@ def oracle(ctx, name, case, obs, check_next=True):
         prev = (m2, s2, isr2)
 
 
+def rng_choice(ctx, xs):
+    return xs[ctx.rng.randrange(len(xs))]
+
+
 def fmt(case):
     en, pm, ps, isr, ops = case
     return f"{en} {pm} {ps} {isr} " + " ".join(ops)
@@ -108,7 +112,7 @@ def firing(line):
 
 def run(ctx):
     ctx.rule = ("timer op sequences (tick/reset/restore) from one PRNG: all period pairs 1..12 x 1..12 with gap patterns, "
-                "every-cycle runs, random large periods/disabled/zero; a case is non-trivial when at least one tick fired and one did not; distinct by full case text")
+                "every-cycle runs, random large periods/disabled/zero; machine WAIT instructions (PCE500Emulator.step -> _simulate_wait) spanning 0..many boundaries with the scheduler's advance() observed; a case is non-trivial when at least one tick fired and one did not; distinct by full case text")
     ctx.trusted += [
         "correspondence harness: harness/py/timer_cmd.py (TimerScheduler + PCE500Emulator._tick_timers), harness/rust/verif-harness/src/timer_cmd.rs (TimerContext::tick_timers/reset), extracted model_driver (ExtrOcamlBasic)",
         "modelled not verified: pce500/scheduler.py advance/reset, timer.rs tick_timers (preserve_phase=true path) / reset; u64 wrap modelled, theorems guarded by c,p < 2^63",
@@ -172,6 +176,49 @@ def run(ctx):
                 else:
                     oracle(ctx, nm, case, outs[nm][i], check_next=True)
         ctx.traces += 1
+    # WAIT on the machine: the cycle counter advances through PCE500Emulator.step -> _simulate_wait; every boundary inside the
+    # WAIT must fire exactly once, on the boundary cycle (the scheduler's advance() is observed, not replaced)
+    wl = []
+    for _ in range(300 if ctx.tier == "thorough" else 40):
+        pm = rng_choice(ctx, [ctx.rng.randint(1, 12), ctx.rng.randint(13, 300), 2048])
+        ps = rng_choice(ctx, [ctx.rng.randint(1, 12), ctx.rng.randint(13, 300), 512])
+        cnt = rng_choice(ctx, [1, 2, ctx.rng.randint(1, 3 * max(pm, ps) + 5), ctx.rng.randint(1, 6000)])
+        wl.append(f"{pm} {ps} {ctx.rng.randint(0, 3)} {cnt}")
+    if ctx.tier == "thorough":
+        wl.append("2048 512 0 0")
+    wo, we = common.run_sharded(PYDRV, ["timer_wait " + l for l in wl], env=env)
+    if we.strip():
+        ctx.notes.append(f"timer_wait stderr: {we.strip()[-300:]}")
+    wo = (wo + ["MISSING"] * len(wl))[:len(wl)]
+    for l, o in zip(wl, wo):
+        ctx.evaluations += 1
+        ctx.traces += 1
+        parts = o.split("|")
+        if len(parts) != 4:
+            ctx.report(["emu", "wait_error"], f"timer_wait {l}: {o[:120]}", {"case": "timer_wait " + l})
+            continue
+        pm, ps = int(l.split()[0]), int(l.split()[1])
+        c0, c1, m0, s0, last = (int(x) for x in parts[0].split(","))
+        if c1 - c0 < int(l.split()[3] or 0):
+            ctx.report(["emu", "wait_cycles_lost"], f"WAIT with I={l.split()[3]} advanced the cycle counter by {c1 - c0}", {"case": "timer_wait " + l, "answer": o[:400]})
+        if last < c1 - 1:
+            ctx.report(["emu", "wait_cycles_not_ticked"], f"WAIT over cycles {c0}..{c1}: the timers were last ticked at cycle {last}", {"case": "timer_wait " + l, "answer": o[:400]})
+        nm, ns, isr, ireg = (int(x) for x in parts[3].split(","))
+        for lab, p, t0, got, nxt, bit in (("MTI", pm, m0, parts[1], nm, 1), ("STI", ps, s0, parts[2], ns, 2)):
+            want = list(range(t0, last + 1, p)) if t0 > c0 else None
+            gotl = [int(x) for x in got.split(",") if x]
+            if want is None:
+                continue
+            if gotl != want:
+                ctx.report(["emu", "wait_boundaries", lab], f"WAIT over cycles {c0}..{c1} (timers ticked up to {last}): {lab} (period {p}, target {t0}) fired at {gotl[:8]}{'...' if len(gotl) > 8 else ''} ({len(gotl)} firings), boundaries are {want[:8]}{'...' if len(want) > 8 else ''} ({len(want)})",
+                           {"case": "timer_wait " + l, "answer": o[:400]})
+            if want and not (isr & bit):
+                ctx.report(["emu", "wait_isr_not_set", lab], f"WAIT crossed a {lab} boundary but ISR={isr:#x}", {"case": "timer_wait " + l, "answer": o[:400]})
+            if not nxt > last or (nxt - t0) % p:
+                ctx.report(["emu", "wait_target", lab], f"after WAIT {lab} target {nxt} (last ticked cycle {last}, period {p}, old target {t0})", {"case": "timer_wait " + l, "answer": o[:400]})
+        if len([1 for x in parts[1].split(",") if x]) >= 2 or len([1 for x in parts[2].split(",") if x]) >= 2:
+            ctx.nontrivial.add("wait:" + l)
+    ctx.count("machine WAIT cases", len(wl))
     ctx.samples = [{"case": lines[i], "python": outs["py"][i], "rust": outs.get("rs", [""] * n)[i], "model": outs.get("mpy", [""] * n)[i]} for i in (0, n // 2, n - 1)]
     ctx.extra["executors"] = sorted(outs)
     ctx.extra["disagreements"] = disagreements
